@@ -216,6 +216,7 @@ func runC07(w *World) *Result {
 	c07Clone(w, cf, r)
 	c07Lookup(w, cf, r, "R-C07-lookup")
 	c07Decl(w, cf, r)
+	NewnessStrictRule(w, cf, r, "R-C07-decl")
 	c07Place(w, cf, r)
 	c07HeaderOrder(w, cf, r, "R-C07-decl")
 	c07Public(w, cf, r, "R-C07-public")
@@ -1183,6 +1184,8 @@ func runC09(w *World) *Result {
 	c09PrefixApplied(w, r, "R-C09-prefix")
 	c07Public(w, cf, r, "R-C09-public")
 	c07Predicate(w, r, "R-C09-public")
+	r.Rule("R-C09-keys", "tables of the parsing context that are filled under namespace-prefixed keys are looked up under keys built the same way", 2)
+	c09Keys(w, cf, r, "R-C09-keys")
 	r.Rule("R-C09-state", "what is emitted for one program does not depend on an earlier Transpile call on the same object (function definitions are never skipped because of remembered names)", 1)
 	c14TranspileState(w, r, "R-C09-state")
 	return r
@@ -2967,4 +2970,295 @@ func c09PrefixApplied(w *World, r *Result, rule string) {
 	if n == 0 {
 		r.Bad(rule, "prefix:applied:none", "-", "no variable definition with an optional file prefix found")
 	}
+}
+
+// c09Keys: writer/reader agreement of the keys of the context's definition tables. Where
+// every store into a table of the parsing context uses a key produced by the key builder
+// (the function that puts the file's namespace prefix in front of a global name), every
+// lookup in that table must use a key produced by the same builder: a lookup under the raw
+// spelling finds whatever another file stored under it — alias.Func() would resolve to the
+// importing file's own Func, and an unknown alias or a private name would be accepted.
+func c09Keys(w *World, cf *ctxFacts, r *Result, rule string) {
+	type access struct {
+		fn  *ssa.Function
+		ins ssa.Instruction
+		key ssa.Value
+	}
+	stores := map[int][]access{}
+	lookups := map[int][]access{}
+	fieldOf := func(m ssa.Value) (int, bool) {
+		switch x := m.(type) {
+		case *ssa.UnOp:
+			if fa, ok := x.X.(*ssa.FieldAddr); ok {
+				if pt, ok := fa.X.Type().Underlying().(*types.Pointer); ok && cf.isCtx(pt.Elem()) {
+					return fa.Field, true
+				}
+			}
+		case *ssa.Field:
+			if cf.isCtx(x.X.Type()) {
+				return x.Field, true
+			}
+		}
+		return 0, false
+	}
+	for _, fn := range w.Funcs("parser") {
+		for _, b := range fn.Blocks {
+			for _, ins := range b.Instrs {
+				switch x := ins.(type) {
+				case *ssa.MapUpdate:
+					if f, ok := fieldOf(x.Map); ok {
+						stores[f] = append(stores[f], access{fn, x, x.Key})
+					}
+				case *ssa.Lookup:
+					if f, ok := fieldOf(x.X); ok {
+						lookups[f] = append(lookups[f], access{fn, x, x.Index})
+					}
+				}
+			}
+		}
+	}
+	// the builder behind a key: the product function whose string result the key is
+	builderOf := func(k ssa.Value) *ssa.Function {
+		var find func(v ssa.Value, d int) *ssa.Function
+		find = func(v ssa.Value, d int) *ssa.Function {
+			if d > 4 {
+				return nil
+			}
+			switch x := v.(type) {
+			case *ssa.Extract:
+				return find(x.Tuple, d+1)
+			case *ssa.Call:
+				if callee := x.Call.StaticCallee(); callee != nil && w.IsProduct(pkgOf(callee)) {
+					return callee
+				}
+			case *ssa.Phi:
+				var f *ssa.Function
+				for _, e := range x.Edges {
+					g := find(e, d+1)
+					if g == nil || (f != nil && g != f) {
+						return nil
+					}
+					f = g
+				}
+				return f
+			}
+			return nil
+		}
+		return find(k, 0)
+	}
+	st, _ := cf.ctxType.Underlying().(*types.Struct)
+	var fields []int
+	for f := range stores {
+		fields = append(fields, f)
+	}
+	sort.Ints(fields)
+	n := 0
+	// the emitted name of a definition (definition.Name()): already carries its file's prefix
+	isDefName := func(k ssa.Value) bool {
+		c, ok := k.(*ssa.Call)
+		if !ok {
+			return false
+		}
+		if c.Call.IsInvoke() {
+			return c.Call.Method.Name() == "Name"
+		}
+		callee := c.Call.StaticCallee()
+		return callee != nil && callee.Name() == "Name" && callee.Signature.Recv() != nil && w.IsProduct(pkgOf(callee))
+	}
+	for _, f := range fields {
+		var kb *ssa.Function
+		all := true
+		for _, s := range stores[f] {
+			if isDefName(s.key) {
+				continue
+			}
+			g := builderOf(s.key)
+			if g == nil || (kb != nil && g != kb) {
+				all = false
+			}
+			kb = g
+		}
+		if !all || kb == nil {
+			continue // the table is keyed by raw spellings (aliases)
+		}
+		fname := fmt.Sprint(f)
+		if st != nil && f < st.NumFields() {
+			fname = st.Field(f).Name()
+		}
+		for i, l := range lookups[f] {
+			n++
+			key := fmt.Sprintf("keys:%s:%s#%d", fname, FuncName(l.fn), i+1)
+			if g := builderOf(l.key); g == kb {
+				r.Ok(rule, key, w.Pos(l.ins.Pos()), "looked up under a key built by "+kb.Name()+", as every store into the table")
+			} else if isDefName(l.key) {
+				r.Ok(rule, key, w.Pos(l.ins.Pos()), "looked up under the emitted name of a definition (which carries its file's prefix)")
+			} else {
+				r.Bad(rule, key, w.Pos(l.ins.Pos()), fmt.Sprintf("table %s is filled under keys built by %s (file prefix + name) but looked up here under another key (the raw spelling): a definition another file stored under that spelling is found instead — alias.F() resolves to the importing file's own F, unknown aliases and private names are accepted", fname, kb.Name()))
+			}
+		}
+	}
+	if n == 0 {
+		r.Bad(rule, "keys:none", "-", "no lookup in a context table that is filled under built keys")
+	}
+}
+
+// NewnessStrictRule: where a context lookup serves as a "the name must be new" test (its
+// found-branch can end in an error return), the found-branch ends in an error return on
+// EVERY path: a further condition on the found definition (same kind, same scope class …)
+// lets some redeclarations through, and the two variables then share one shell name.
+func NewnessStrictRule(w *World, cf *ctxFacts, r *Result, rule string) {
+	n := 0
+	for _, fn := range w.Funcs("parser") {
+		perFn := 0
+		for _, b := range fn.Blocks {
+			for _, ins := range b.Instrs {
+				c, ok := ins.(*ssa.Call)
+				if !ok {
+					continue
+				}
+				callee := c.Call.StaticCallee()
+				if callee == nil || !cf.lookups[callee] {
+					continue
+				}
+				for _, ref := range *c.Referrers() {
+					ex, ok := ref.(*ssa.Extract)
+					if !ok || ex.Index != 1 {
+						continue
+					}
+					for _, blk := range fn.Blocks {
+						cnd, neg := condOf(blk)
+						if cnd != ex {
+							continue
+						}
+						idx := 0
+						if neg {
+							idx = 1
+						}
+						found, missing := blk.Succs[idx], blk.Succs[1-idx]
+						if _, allMissing := errorPaths(missing, map[*ssa.BasicBlock]bool{}, 0); allMissing {
+							continue // a "must exist" test: the name has to be there
+						}
+						// a site that takes the found definition over into what it builds (a short
+						// declaration re-using an existing variable keeps its type) is not a newness test
+						adopts := false
+						for _, ref2 := range *c.Referrers() {
+							if ex0, ok := ref2.(*ssa.Extract); ok && ex0.Index == 0 && flowsIntoConstruction(w, ex0) {
+								adopts = true
+							}
+						}
+						if adopts {
+							continue
+						}
+						some, all := errorPaths(found, map[*ssa.BasicBlock]bool{}, 8)
+						if !some {
+							continue // the found-branch goes on without an error exit close by
+						}
+						n++
+						perFn++
+						key := fmt.Sprintf("newness:%s:%s#%d", FuncName(fn), callee.Name(), perFn)
+						if all {
+							r.Ok(rule, key, w.Pos(c.Pos()), "a name that is found is rejected on every path")
+						} else {
+							r.Bad(rule, key, w.Pos(c.Pos()), "the name was found, but the rejection depends on a further condition (on some path the found-branch returns without an error): some redeclarations are accepted, and both variables are emitted under one shell name")
+						}
+					}
+				}
+			}
+		}
+	}
+	if n == 0 {
+		r.Bad(rule, "newness:none", "-", "no lookup used as a newness test found in the parser")
+	}
+}
+
+// flowsIntoConstruction: the value, or what its accessors yield, becomes an argument of a
+// constructing product call (one that does not merely answer a question) or is stored into
+// a structure.
+func flowsIntoConstruction(w *World, v ssa.Value) bool {
+	seen := map[ssa.Value]bool{}
+	work := []ssa.Value{v}
+	for len(work) > 0 {
+		x := work[len(work)-1]
+		work = work[:len(work)-1]
+		if seen[x] || x.Referrers() == nil {
+			continue
+		}
+		seen[x] = true
+		for _, ref := range *x.Referrers() {
+			switch y := ref.(type) {
+			case *ssa.Call:
+				callee := y.Call.StaticCallee()
+				if y.Call.IsInvoke() {
+					if y.Call.Value == x {
+						work = append(work, y)
+					}
+					continue
+				}
+				if callee == nil || !w.IsProduct(pkgOf(callee)) {
+					continue
+				}
+				if len(y.Call.Args) > 0 && y.Call.Args[0] == x && callee.Signature.Recv() != nil {
+					work = append(work, y) // accessor / method of the value
+					continue
+				}
+				res := callee.Signature.Results()
+				if res.Len() == 1 && isBool(res.At(0).Type()) {
+					continue // a question about the value
+				}
+				if res.Len() >= 1 && !isErrorType(res.At(0).Type()) {
+					return true
+				}
+			case *ssa.Phi, *ssa.Extract, *ssa.MakeInterface, *ssa.ChangeType, *ssa.Field:
+				work = append(work, y.(ssa.Value))
+			case *ssa.Store:
+				if y.Val != x {
+					continue
+				}
+				switch a := y.Addr.(type) {
+				case *ssa.FieldAddr, *ssa.IndexAddr:
+					return true
+				case *ssa.Alloc:
+					for _, r2 := range *a.Referrers() {
+						if u, ok := r2.(*ssa.UnOp); ok {
+							work = append(work, u)
+						}
+						if fa, ok := r2.(*ssa.FieldAddr); ok {
+							for _, r3 := range *fa.Referrers() {
+								if u, ok := r3.(*ssa.UnOp); ok {
+									work = append(work, u)
+								}
+							}
+						}
+					}
+				}
+			}
+		}
+	}
+	return false
+}
+
+// errorPaths: (some path from b ends in an error return, every path does).
+func errorPaths(b *ssa.BasicBlock, seen map[*ssa.BasicBlock]bool, depth int) (bool, bool) {
+	if depth > 12 || seen[b] || len(b.Instrs) == 0 {
+		return false, false
+	}
+	seen[b] = true
+	defer delete(seen, b)
+	switch l := b.Instrs[len(b.Instrs)-1].(type) {
+	case *ssa.Return:
+		e := isErrorReturn(l)
+		return e, e
+	case *ssa.Panic:
+		return true, true
+	}
+	some, all := false, true
+	if len(b.Succs) == 0 {
+		return false, false
+	}
+	for _, sc := range b.Succs {
+		s, a := errorPaths(sc, seen, depth+1)
+		some = some || s
+		all = all && a
+	}
+	return some, all
 }
